@@ -167,7 +167,8 @@ def main(argv=None):
         "vacuity_guards_failed_as_required": sum(r["vacuity_checked"] for r in results),
         "solver_ms": {r["unit"]: r["solver_ms"] for r in results},
         "solver_ms_total": sum(sum(r["solver_ms"].values()) for r in results),
-        "back_end": "Verus 0.2026.09.13 / Z3 (unbounded, per-function modular)",
+        "back_end": "Verus 0.2026.09.13 / Z3 (unbounded, per-function modular)" + (
+            "; Kani 0.68 / CBMC 6.11 for the steps listed under `steps` (complete loop-free harnesses are counted as obligations, bounded ones only under `bounded`)" if extra else ""),
         "extraction": {
             "sources": sorted({s for r in results for s in r["sources"]}),
             "rewrites": [w for r in results for w in r["rewrites"]],
